@@ -230,7 +230,9 @@ static void run_geometries(int op, int si, int mi, int di, int full, const pixma
                 pixman_format_code_t mf = SRC[si].fmt == PIXMAN_x8b8g8r8 ? PIXMAN_a8b8g8r8 : SRC[si].fmt == PIXMAN_x8r8g8b8 ? PIXMAN_a8r8g8b8 : SRC[si].fmt;
                 if (PIXMAN_FORMAT_BPP(mf) == 32) m.img = pixman_image_create_bits(mf, IMGW, IMGH, s.buf, s.stride);
             }
-            for (int g = 0; g < ng; g++) G[g].mx = G[g].sx;
+            /* equal offsets select the library's 'pixbuf' pseudo-formats; unequal offsets must NOT (every other geometry) */
+            for (int g = 0; g < ng; g += 2) G[g].mx = G[g].sx;
+            for (int g = 1; g < ng; g += 2) if (G[g].mx == G[g].sx) G[g].mx = G[g].sx + 2;
         } else if (MASK[mi].kind >= 0) { imgkind_t mk = { MASK[mi].name, MASK[mi].fmt, MASK[mi].kind }; m = make_img(&mk, 0, IMGW, IMGH, variant ? 8 : 0, !variant, 5 + variant); if (MASK[mi].ca) pixman_image_set_component_alpha(m.img, 1); }
         himg_t d = make_img(&DST[di], 0, IMGW, IMGH, variant ? 4 : 0, variant, 9);
         if (!s.img || !d.img) { free_img(&s); free_img(&m); free_img(&d); return; }
@@ -356,6 +358,50 @@ static void p3_case(uint64_t idx, void *vctx)
     if (vf_want_sample() && !vf_in_confirm && idx == 0 && xi == 2 && rep == 2) { char d[200]; describe(d, sizeof d, op, si, mi, di); vf_sample("phase3 %s %s", d, xd); }
 }
 
+/* phase 5: exact 90/180/270 degree rotations of sources large enough that all samples are covered (the rotate fast paths
+ * tile the destination span in 64-byte blocks with unaligned leading and trailing parts) */
+#define RS 132
+static void p5_case(uint64_t idx, void *vctx)
+{
+    static const int widths[] = { 1, 7, 15, 16, 17, 31, 32, 33, 40, 47, 63, 64, 65, 70, 97, 128 };
+    static const pixman_format_code_t fm[4] = { PIXMAN_a8r8g8b8, PIXMAN_x8r8g8b8, PIXMAN_r5g6b5, PIXMAN_a8 };
+    static const char *fmn[4] = { "a8r8g8b8", "x8r8g8b8", "r5g6b5", "a8" };
+    int rot = (int)(idx % 3); idx /= 3; int fi = (int)(idx % 4); idx /= 4; int wi = (int)(idx % 16); idx /= 16; int dx = (int)(idx % 4); idx /= 4; int h = (idx % 2) ? 5 : 1; idx /= 2; int op = (idx % 2) ? PIXMAN_OP_OVER : PIXMAN_OP_SRC;
+    static const int dxs[4] = { 0, 1, 3, 16 };
+    int w = widths[wi]; dx = dxs[dx];
+    int bpp = PIXMAN_FORMAT_BPP(fm[fi]);
+    int sstride = ((RS * bpp + 31) / 32) * 4, dstride = ((160 * bpp + 31) / 32) * 4 + 4;
+    uint32_t *sb = malloc((size_t)sstride * RS + 64), *db = malloc((size_t)dstride * 8 + 64), *d0 = malloc((size_t)dstride * 8 + 64), *ref = malloc((size_t)dstride * 8 + 64);
+    for (size_t i = 0; i < ((size_t)sstride * RS + 3) / 4; i++) sb[i] = pat(1, i);
+    for (size_t i = 0; i < ((size_t)dstride * 8 + 3) / 4; i++) d0[i] = pat(0, i + 31);
+    pixman_image_t *src = pixman_image_create_bits(fm[fi], RS, RS, sb, sstride);
+    pixman_image_t *dst = pixman_image_create_bits(fm[fi], 160, 8, db, dstride);
+    pixman_transform_t t; memset(&t, 0, sizeof t); t.matrix[2][2] = pixman_fixed_1;
+    if (rot == 0) { t.matrix[0][1] = pixman_fixed_1; t.matrix[1][0] = -pixman_fixed_1; t.matrix[1][2] = pixman_int_to_fixed(RS); }                    /* 90 */
+    else if (rot == 1) { t.matrix[0][0] = -pixman_fixed_1; t.matrix[1][1] = -pixman_fixed_1; t.matrix[0][2] = pixman_int_to_fixed(RS); t.matrix[1][2] = pixman_int_to_fixed(RS); }  /* 180 */
+    else { t.matrix[0][1] = -pixman_fixed_1; t.matrix[1][0] = pixman_fixed_1; t.matrix[0][2] = pixman_int_to_fixed(RS); }                              /* 270 */
+    pixman_image_set_transform(src, &t);
+    pixman_image_set_filter(src, PIXMAN_FILTER_NEAREST, NULL, 0);
+    size_t dsz = (size_t)dstride * 8; char cfgn[64];
+    uint32_t undef = 0; { ph_fmt_t df; ph_fmt_describe(fm[fi], fmn[fi], &df); undef = ~ph_defined_mask(&df) & (bpp == 32 ? 0xffffffffu : ((1u << bpp) - 1)); }
+    for (int ci = -1; ci < NCFGS && !vf_failed(); ci++) {
+        int cfg = ci < 0 ? REF_CFG : CFGS[ci]; if (ci >= 0 && cfg == REF_CFG) continue;
+        ph_set_cfg(cfg);
+        memcpy(db, d0, dsz);
+        pixman_image_composite32(op, src, NULL, dst, 2, 1, 0, 0, dx, 1, w, h);
+        vf_count_libcalls(1);
+        if (undef) for (int yy = 0; yy < 8; yy++) { uint8_t *row = (uint8_t *)db + (size_t)yy * dstride; for (int xx = 0; xx < 160; xx++) ph_put_pixel(row, bpp, xx, ph_get_pixel(row, bpp, xx) & ~undef); }
+        if (ci < 0) memcpy(ref, db, dsz);
+        else if (memcmp(ref, db, dsz)) {
+            size_t off = 0; while (off < dsz && ((uint8_t *)ref)[off] == ((uint8_t *)db)[off]) off++;
+            vf_violation("c02-impl-differs", "op=%s %s rotate=%d nearest, covering %dx%d source, dest_x=%d width=%d height=%d: PIXMAN_DISABLE=[%s] differs from the general path at byte %zu (row %zu, pixel %zu)",
+                         op == PIXMAN_OP_SRC ? "SRC" : "OVER", fmn[fi], rot == 0 ? 90 : rot == 1 ? 180 : 270, RS, RS, dx, w, h, ph_cfg_name(cfg, cfgn, sizeof cfgn), off, off / dstride, (off % dstride) * 8 / bpp);
+        }
+    }
+    if (!vf_in_confirm) { vf_count_eval(1); if (memcmp(ref, d0, dsz)) vf_count_nontrivial(1); vf_outcome(vf_hash64(ref, dsz, 77)); }
+    pixman_image_unref(src); pixman_image_unref(dst); free(sb); free(db); free(d0); free(ref);
+}
+
 /* phase 4: blt / fill under every configuration */
 static void p4_case(uint64_t idx, void *vctx)
 {
@@ -451,6 +497,7 @@ int main(int argc, char **argv)
     p3_ctx c3 = { th ? 1 : 0 };
     vf_space_run("phase3-transformed", (uint64_t)4 * 4 * NXF * 6 * 3 * 6 * 5 * 2, p3_case, &c3);
     vf_space_run("phase4-blt-fill", 6 * 20 * 40, p4_case, NULL);
+    vf_space_run("phase5-rotations-covering-source", 3 * 4 * 16 * 4 * 2 * 2, p5_case, NULL);
 
     write_coverage();
     if (cov->cache_mismatch && !vf->nviol) {
@@ -460,7 +507,7 @@ int main(int argc, char **argv)
     }
     static char bounds[400];
     snprintf(bounds, sizeof bounds, "%d configurations; %d operators x %d source kinds x %d mask kinds x %d destination formats; loop geometry: %d widths x dest_x 0..7 x 3 source offsets on the %d combinations that reach a fast path; "
-             "transformed: 5 ops x 6 src x 3 mask x 6 dst x %d transforms x 4 filters (nearest, bilinear, 3x3 convolution, separable) x 4 repeats; blt/fill 6 bpp x 20 x x 40 widths", NCFGS, nops, NSRC, NMASK, NDST,
+             "transformed: 5 ops x 6 src x 3 mask x 6 dst x %d transforms x 4 filters (nearest, bilinear, 3x3 convolution, separable) x 4 repeats; blt/fill 6 bpp x 20 x x 40 widths; rotations 90/180/270 x 4 formats x 16 widths (1..128) x 4 dest_x x 2 heights x 2 ops on covering 132x132 sources", NCFGS, nops, NSRC, NMASK, NDST,
              (int)(sizeof W_ALL / sizeof W_ALL[0]), c2.n, NXF);
     vf_bounds = bounds;
     return vf_finish();
